@@ -145,7 +145,7 @@ structure TaskMono (ts ts' : List TaskRec) : Prop where
   sched : ∀ t, Sched ts t → Sched ts' t
   ing : IngRecs ts → IngRecs ts'
 
-def ObsMono (os os' : List Obs) : Prop := ∀ o, Begun os o → Begun os' o
+def ObsMonoS (os os' : List Obs) : Prop := ∀ o, Begun os o → Begun os' o
 
 theorem TaskMono.refl (ts : List TaskRec) : TaskMono ts ts := ⟨fun _ h => h, fun h => h⟩
 theorem TaskMono.trans {a b c : List TaskRec} (h1 : TaskMono a b) (h2 : TaskMono b c) : TaskMono a c :=
@@ -203,9 +203,9 @@ theorem TaskMono.append (ts recs : List TaskRec) (hrecs : IngRecs recs) : TaskMo
     · exact h r hr
     · exact hrecs r hr
 
-theorem ObsMono.updObs (s : Sys) (o : Oid) (f : Obs → Obs)
+theorem ObsMonoS.updObs (s : Sys) (o : Oid) (f : Obs → Obs)
     (hf : ∀ r, (f r).id = r.id ∧ ((f r).status = .waiting → r.status = .waiting)) :
-    ObsMono s.obs (s.updObs o f).obs := by
+    ObsMonoS s.obs (s.updObs o f).obs := by
   rintro o' ⟨r, hr, hs⟩
   have := find?_map_upd (fun r : Obs => r.id) s.obs o o' f (fun r => (hf r).1)
   refine ⟨_, by simp only [Sys.updObs]; rw [this, hr]; rfl, ?_⟩
@@ -284,7 +284,7 @@ structure SInv (s : Sys) : Prop where
 /-! ### frame lemmas: what each group does not depend on -/
 
 theorem CI.frame {s s1 : Sys} {U : List Tid} (h : CI s U) (hcl : ClQuiet s.cl s1.cl)
-    (ht : TaskMono s.tasks s1.tasks) (ho : ObsMono s.obs s1.obs)
+    (ht : TaskMono s.tasks s1.tasks) (ho : ObsMonoS s.obs s1.obs)
     (hp : ∀ q, q.k.isAT = true ∨ q.k.isPI = true → (q ∈ s1.procs ↔ q ∈ s.procs)) : CI s1 U := by
   have hat : ∀ {q : Proc} {t m preds obs ing ret}, q ∈ s1.procs → q.k = .allocTask t m preds obs ing ret →
       q ∈ s.procs := fun hq hk => (hp _ (Or.inl (by rw [hk]; rfl))).mp hq
